@@ -184,7 +184,9 @@ func (fr *frame) instr(ins ssa.Instruction) {
 	case *ssa.Defer:
 		d := deferred{cond: fr.cur, call: x}
 		for _, li := range fr.loops {
-			if li.blocks[fr.blk] {
+			if li.blocks[fr.blk] && fr.reachesBackEdge(fr.blk, li) {
+				// the loop may iterate again after registering this defer: an unknown number of
+				// instances would be pending at the return
 				d.inLoop = true
 			}
 		}
@@ -311,6 +313,7 @@ func (fr *frame) store(x *ssa.Store) {
 	av := fr.val(x.Addr)
 	p := fr.asPtr(av, x.Addr.Type())
 	fr.nilCheck(av, p, x.Pos(), "store through nil pointer")
+	fr.guardedCheck(p, true, x.Pos())
 	v := fr.val(x.Val)
 	u.storePtr(p, fr.st, fr.term(v))
 	// remember statically known facts about stored closures / interfaces in local cells
@@ -329,6 +332,7 @@ func (fr *frame) unop(x *ssa.UnOp) Val {
 		av := fr.val(x.X)
 		p := fr.asPtr(av, x.X.Type())
 		fr.nilCheck(av, p, x.Pos(), "load through nil pointer")
+		fr.guardedCheck(p, false, x.Pos())
 		t := u.loadPtr(p, fr.st)
 		res := Val{t: t, typ: x.Type()}
 		if p.kind == pLocal && len(p.path) == 0 && u.cellStatic != nil {
@@ -826,4 +830,54 @@ func (u *Unit) strConcat(a, b string) string {
 		u.emit("(assert (forall ((a Str) (b Str) (k %s)) (! (=> (and %s %s) (= (select (S_arr (str_concat a b)) k) (select (S_arr b) %s))) %s)))", I, m.cmp("<=", "(S_len a)", "k", true), m.cmp("<", "k", u.idxAdd("(S_len a)", "(S_len b)"), true), u.idxSub("k", "(S_len a)"), pat)
 	}
 	return "(str_concat " + a + " " + b + ")"
+}
+
+// reachesBackEdge: can control flow from b reach a back edge of loop li (staying inside the loop)?
+func (fr *frame) reachesBackEdge(b *ssa.BasicBlock, li *loopInfo) bool {
+	seen := map[*ssa.BasicBlock]bool{}
+	stack := []*ssa.BasicBlock{b}
+	for len(stack) > 0 {
+		x := stack[len(stack)-1]
+		stack = stack[:len(stack)-1]
+		if seen[x] {
+			continue
+		}
+		seen[x] = true
+		for _, s := range x.Succs {
+			if s == li.header {
+				return true
+			}
+			if li.blocks[s] {
+				stack = append(stack, s)
+			}
+		}
+	}
+	return false
+}
+
+// guardedCheck: accesses to fields declared `guarded S.f by lockfield` need the lock.
+func (fr *frame) guardedCheck(p *Ptr, write bool, pos token.Pos) {
+	u := fr.u
+	if p.kind != pHeapStruct || len(p.path) == 0 || p.path[0].field < 0 || u.freshRefs[p.ref] {
+		return
+	}
+	st := p.typ.Underlying().(*types.Struct)
+	fname := st.Field(p.path[0].field).Name()
+	gd, ok := u.eng.CS.Guarded["H."+shortTypeName(p.typ)+"."+fname]
+	if !ok {
+		return
+	}
+	lk := u.regKey("Held."+shortTypeName(p.typ)+"."+gd.LockField, "(Array Int Int)")
+	cur := fmt.Sprintf("(select %s %s)", fr.st.get(u, lk), p.ref)
+	goal := "(= " + cur + " 1)"
+	mode := "exclusively"
+	if !write && gd.ReadOK {
+		goal = "(not (= " + cur + " 0))"
+		mode = "(shared suffices)"
+	}
+	kind := "read"
+	if write {
+		kind = "write"
+	}
+	fr.u.addObl("guarded", fmt.Sprintf("%s of %s.%s requires holding %s %s", kind, shortTypeName(p.typ), fname, gd.LockField, mode), fr.pos(pos), fr.cur, goal)
 }
